@@ -242,10 +242,12 @@ class LeaderNode(Entity):
             vector_clock=vc_snapshot,
         )
 
-        # Apply locally
-        yield from self._store.put(key, value)
+        # Apply locally.  The version table is updated before the store write is
+        # awaited: a Replicate for the same key that arrives during the write
+        # latency must be compared against this version, not the previous one.
         self._versions[key] = versioned
         self._merkle.update(key, value)
+        yield from self._store.put(key, value)
 
         # Replicate to all peers
         events = []
@@ -316,11 +318,13 @@ class LeaderNode(Entity):
 
         existing = self._versions.get(key)
 
+        # In every branch the version table is updated before the store write is
+        # awaited, so that messages handled during the write latency see it.
         if existing is None:
             # No local version — apply
-            yield from self._store.put(key, value)
             self._versions[key] = incoming
             self._merkle.update(key, value)
+            yield from self._store.put(key, value)
         else:
             # Compare vector clocks
             existing_vc = existing.vector_clock or {}
@@ -328,9 +332,9 @@ class LeaderNode(Entity):
 
             if _vc_dominates(incoming_vc, existing_vc):
                 # Incoming is newer — apply
-                yield from self._store.put(key, value)
                 self._versions[key] = incoming
                 self._merkle.update(key, value)
+                yield from self._store.put(key, value)
             elif _vc_dominates(existing_vc, incoming_vc):
                 # Existing is newer — discard
                 pass
@@ -341,9 +345,9 @@ class LeaderNode(Entity):
                 self._conflicts_resolved += 1
 
                 if winner is not existing:
-                    yield from self._store.put(key, winner.value)
                     self._versions[key] = winner
                     self._merkle.update(key, winner.value)
+                    yield from self._store.put(key, winner.value)
 
         return None
 
